@@ -68,6 +68,25 @@ func (w *Writer) Put(v interface{}) {
 	w.mu.Unlock()
 }
 
+// PutAll appends several lines as one uninterrupted block.
+func (w *Writer) PutAll(vs []interface{}) {
+	var bs [][]byte
+	for _, v := range vs {
+		b, err := json.Marshal(v)
+		if err != nil {
+			Die("marshal: %v", err)
+		}
+		bs = append(bs, b)
+	}
+	w.mu.Lock()
+	for _, b := range bs {
+		w.w.Write(b)
+		w.w.WriteByte('\n')
+		w.N++
+	}
+	w.mu.Unlock()
+}
+
 // Close flushes and closes.
 func (w *Writer) Close() {
 	w.mu.Lock()
